@@ -312,6 +312,38 @@ def connect_lists_on_heap(H, case):
            "mixed": [False, True, True, False][: nf] + [True, False][: nt]}[flags]
     F_ = [DisconnectingModule(m) if neg[i] else m for i, m in enumerate(mods[:nf])]
     T_ = [DisconnectingModule(m) if neg[nf + i] else m for i, m in enumerate(mods[nf:])]
+
+    k = z3.Int("k")
+
+    def pair_claim(fi, ti):
+        s, d = idx[fi].z, idx[nf + ti].z
+        conn = z3.Exists([k], z3.And(0 <= k, k < heap.len["in_links"][d], heap.tab["in_links"][d][k] == s))
+        gone = neg[fi] or neg[nf + ti]
+        return ("gone" if gone else "connected"), SymBool(z3.Not(conn) if gone else conn)
+
+    heads = set()
+
+    def invariant(locals_, lineno):
+        # loop invariant of both loops of connect(): LinksOK holds at the head of every iteration, and
+        # every pair the loops have already dealt with is in its requested state
+        # (proved there, then available to the iterations that follow)
+        for name, cl in heap.clauses().items():
+            H.lemma("loop_invariant.LinksOK." + name, SymBool(cl))
+        heads.add(lineno)
+        if len(heads) < 2 or lineno == min(heads):
+            return
+        fi = [i for i, x in enumerate(F_) if x is locals_.get("from_item")]
+        ti = [i for i, x in enumerate(T_) if x is locals_.get("to_item")]
+        if len(fi) != 1 or len(ti) != 1:
+            return
+        for a in range(nf):
+            for b in range(nt):
+                if (a, b) < (fi[0], ti[0]):
+                    what, claim = pair_claim(a, b)
+                    H.lemma(f"loop_invariant.pair[{a}][{b}].{what}", claim)
+
+    if nf * nt > 2:
+        H.loop_invariant("Project.connect", invariant)
     exc, _ = H.raises(p.connect, F_ if nf > 1 else F_[0], T_ if nt > 1 else T_[0])
     H.check("does_not_raise", exc is None)
     for name, cl in heap.clauses().items():
